@@ -748,7 +748,7 @@ pub const PROP: Prop = Prop {
     generate,
     execute,
     shrink,
-    rule: "one run = one directed module graph over 1..6 (quick) / 1..8 (thorough) modules (seeded edges biased to cycles, self-imports and shared leaves; named, namespace, bare, re-export and export-star imports; optional top-level await of three kinds; optional throw before/after the awaits; optional dynamic import(); injected fetch or parse errors on 1..2 modules in 1 run of 4, permanent or hitting only the first 1..2 requests), an entry module, a re-evaluation of it and a second entry (with faults: three further attempts, so that a load that failed is retried and, once the transient faults are used up, gets through), executed under 3 (quick) / 5 (thorough) loader schedules (latency 0..5 polls per request, seeded poll order of pending load jobs) on the stub executor and on the real SimpleJobExecutor; non-trivial = a loader delay, poll reorder, loader fault or module throw fired; distinct = distinct (graph shape signature, latencies, delays and reorders fired)",
+    rule: "one run = (1 of 4) one of 1123 committed graphs (same generator, fault-free, half of them forced to contain top-level await) whose per-phase traces and outcomes were fixed at authoring time — the exact oracle for asynchronous graphs, where the synchronous reference model stops —, or (3 of 4) one directed module graph over 1..6 (quick) / 1..8 (thorough) modules (seeded edges biased to cycles, self-imports and shared leaves; named, namespace, bare, re-export and export-star imports; optional top-level await of three kinds; optional throw before/after the awaits; optional dynamic import(); injected fetch or parse errors on 1..2 modules in 1 run of 4, permanent or hitting only the first 1..2 requests), an entry module, a re-evaluation of it and a second entry (with faults: three further attempts, so that a load that failed is retried and, once the transient faults are used up, gets through), executed under 3 (quick) / 5 (thorough) loader schedules (latency 0..5 polls per request, seeded poll order of pending load jobs) on the stub executor and on the real SimpleJobExecutor; non-trivial = a loader delay, poll reorder, loader fault or module throw fired; distinct = distinct (graph shape signature, latencies, delays and reorders fired)",
     real: &["module records: parse, load, link, evaluate incl. async evaluation and cycles", "namespace objects, live bindings", "SimpleJobExecutor in one schedule per run", "Module::parse (called by the stub loader)"],
     stub: &["SimLoader (host side of the ModuleLoader seam: latency, completion order, fetch/parse faults)", "SimExecutor (seeded poll order of pending load jobs)", "reference model of InnerModuleEvaluation for synchronous graphs"],
     assumptions: &[
